@@ -42,6 +42,14 @@ VARIANTS = {
                    ldflags=["-fsplit-stack"]),
 }
 
+for _be, _bf in (("asm", ["-DFIBER_FAST_SWITCHING"]), ("uc", [])):
+    for _st, _sf, _lf in (("mmap", ["-DFIBER_STACK_MMAP"], []), ("malloc", ["-DFIBER_STACK_MALLOC"], []),
+                          ("split", ["-DFIBER_STACK_SPLIT", "-fsplit-stack"], ["-fsplit-stack"])):
+        VARIANTS["ctx_%s_%s" % (_be, _st)] = dict(cflags=["-O2", "-DNDEBUG"] + _bf + _sf, ldflags=_lf)
+        VARIANTS["ctx_%s_%s_dbg" % (_be, _st)] = dict(cflags=["-O1"] + _bf + _sf, ldflags=_lf)
+    VARIANTS["ctx_%s_malloc_asan" % _be] = dict(cflags=["-O1", "-fno-omit-frame-pointer", "-fsanitize=address,undefined", "-fno-sanitize-recover=all",
+                                                        "-DFIBER_STACK_MALLOC", "-DVP_ASAN"] + _bf, ldflags=["-fsanitize=address,undefined"])
+
 SAN_ENV = {
     "ASAN_OPTIONS": "abort_on_error=0:detect_leaks=0:detect_stack_use_after_return=0:allocator_may_return_null=1:exitcode=66",
     "UBSAN_OPTIONS": "print_stacktrace=1:halt_on_error=1:exitcode=67",
